@@ -397,6 +397,21 @@ theorem diagonalIter_refines (m : Matrix α) (h : m.Inv) :
     m.diagonalIter = .ok (Rows.diagonal (abs m)) :=
   diagonalIter_spec m h
 
+/-- `==` (`PartialEq`) on matrices satisfying the invariant decides equality of the lists of rows
+    (same size and same elements); without the invariant the `zip` of the storages could stop
+    early, which is why the invariant theorems matter for it. -/
+theorem eq_refines [BEq α] [LawfulBEq α] (a b : Matrix α) (ha : a.Inv) (hb : b.Inv) :
+    a.eqP b = true ↔ abs a = abs b :=
+  eqP_spec a b ha hb
+
+/-- `clone()` of a matrix satisfying the invariant does not panic and is the same matrix. -/
+theorem clone_refines (m : Matrix α) (h : m.Inv) : m.clone = .ok m :=
+  clone_inv m h
+
+/-- the totalisation trap made explicit: on a storage that lost the invariant `==` would call
+    different matrices equal -/
+example : (⟨[1, 2], 1, 2⟩ : Matrix Nat).eqP ⟨[1, 2, 3, 4], 1, 2⟩ = true := by decide
+
 /-! ### the list-of-rows operations are the obvious ones -/
 
 /-- transposition of a well-formed list of rows exchanges the coordinates of every cell -/
